@@ -1,12 +1,80 @@
 package main
 
 import (
+	"encoding/json"
+	"fmt"
 	"os"
+	"os/exec"
 	"path/filepath"
+	"strings"
+	"time"
 )
 
+type batteryFailure struct {
+	Kind   string `json:"kind"`
+	Expr   string `json:"expression"`
+	Datum  string `json:"datum"`
+	Opts   string `json:"options,omitempty"`
+	Got    string `json:"got"`
+	Want   string `json:"want,omitempty"`
+	Detail string `json:"detail,omitempty"`
+}
+
+type batteryResult struct {
+	Property string           `json:"property"`
+	Cases    int              `json:"cases"`
+	Failures []batteryFailure `json:"failures"`
+	Cmd      string           `json:"cmd"`
+	Output   string           `json:"output,omitempty"`
+	Secs     float64          `json:"secs"`
+	Err      string           `json:"error,omitempty"`
+}
+
+// runBattery runs the replay battery of a property against the real code of
+// /repo (in-package test injected with go test -overlay; nothing is written
+// into /repo).
+func (V *Verifier) runBattery(prop string) *batteryResult {
+	if r, ok := V.batteryMemo[prop]; ok {
+		return r
+	}
+	res := &batteryResult{Property: prop}
+	V.batteryMemo[prop] = res
+	ov := filepath.Join(V.Workdir, "overlay.json")
+	out := filepath.Join(V.Workdir, "battery-"+prop+".json")
+	repo := V.P.RepoDir
+	ovm := map[string]map[string]string{"Replace": {filepath.Join(repo, "zz_bxv_replay_test.go"): "/verif/replay/zz_bxv_replay_test.go"}}
+	b, _ := json.Marshal(ovm)
+	_ = os.WriteFile(ov, b, 0o644)
+	args := []string{"test", "-overlay", ov, "-vet=off", "-count=1", "-timeout", "180s", "-run", "^TestBxvBattery$"}
+	if prop == "C12" {
+		args = append(args, "-race")
+	}
+	args = append(args, ".")
+	cmd := exec.Command("go", args...)
+	cmd.Dir = repo
+	cmd.Env = append(os.Environ(), "GOFLAGS=-mod=mod", "GOPROXY=off", "GOSUMDB=off", "GOTOOLCHAIN=local", "BXV_PROP="+prop, "BXV_OUT="+out)
+	res.Cmd = fmt.Sprintf("cd %s && BXV_PROP=%s BXV_OUT=<file> go %s", repo, prop, strings.Join(args, " "))
+	t0 := time.Now()
+	o, err := cmd.CombinedOutput()
+	res.Secs = time.Since(t0).Seconds()
+	res.Output = truncate(string(o), 4000)
+	if jb, rerr := os.ReadFile(out); rerr == nil {
+		var parsed batteryResult
+		if json.Unmarshal(jb, &parsed) == nil {
+			res.Cases = parsed.Cases
+			res.Failures = parsed.Failures
+		}
+	} else if err != nil {
+		res.Err = "battery did not run to completion: " + err.Error()
+	}
+	if strings.Contains(string(o), "DATA RACE") {
+		res.Failures = append(res.Failures, batteryFailure{Kind: "race", Expr: "(see output)", Datum: "-", Got: "go test -race reported a data race", Detail: truncate(string(o), 3000)})
+	}
+	return res
+}
+
 // makeReplay writes the replay file of a failed obligation and tries to turn
-// the solver's model into a failing input of the real code.
+// it into a failing input of the real code.
 func (V *Verifier) makeReplay(spec *propSpec, o *Oblig, dir string) violation {
 	base := sanitizeFile(o.Name)
 	path := filepath.Join(dir, base+".json")
@@ -28,7 +96,7 @@ func (V *Verifier) makeReplay(spec *propSpec, o *Oblig, dir string) violation {
 	}
 	if o.Clause != nil {
 		m["clause"] = o.Clause.Kind + " " + o.Clause.Text
-		m["clause_at"] = o.Clause.File
+		m["clause_at"] = fmt.Sprintf("%s:%d", o.Clause.File, o.Clause.Line)
 	}
 	if o.Pos.IsValid() {
 		m["source"] = V.P.Fset.Position(o.Pos).String()
@@ -42,7 +110,65 @@ func (V *Verifier) makeReplay(spec *propSpec, o *Oblig, dir string) violation {
 	return v
 }
 
+// concretise: run the property's battery on the real code; a failing input
+// found there is the replayed counterexample.
 func (V *Verifier) concretise(spec *propSpec, o *Oblig, m map[string]any, dir string, v *violation) {
+	if spec.NoBattery {
+		m["replayed"] = false
+		m["replay_note"] = "no-failing-input-found: this property has no executable oracle to replay against (frame/structural obligation); the failed obligation and the solver/walker output above are the evidence"
+		return
+	}
+	br := V.runBattery(spec.ID)
+	m["battery"] = map[string]any{"cmd": br.Cmd, "cases": br.Cases, "secs": round2(br.Secs), "error": br.Err}
+	if len(br.Failures) > 0 {
+		m["replayed"] = true
+		m["failing_inputs"] = br.Failures
+		m["replay_note"] = "the failing inputs were found by running the real code of /repo side by side with the executable transcription of the spec (and the no-panic / err-implies-false oracles); re-run with `bin/bxv replay " + filepath.Join(dir, sanitizeFile(o.Name)+".json") + "`"
+		v.Repro = true
+		return
+	}
 	m["replayed"] = false
-	m["replay_note"] = "no-failing-input-found: no concretiser for this obligation shape"
+	m["replay_note"] = fmt.Sprintf("no-failing-input-found: the obligation failed (verdict %s) but none of the %d battery cases run against the real code disagreed with the reference", o.Res.Verdict, br.Cases)
+}
+
+// cmdReplay re-runs the battery recorded in a replay file.
+func cmdReplay(args []string) int {
+	if len(args) < 1 {
+		fmt.Fprintln(os.Stderr, "usage: bxv replay <replay.json>")
+		return 2
+	}
+	b, err := os.ReadFile(args[0])
+	if err != nil {
+		fmt.Fprintln(os.Stderr, err)
+		return 2
+	}
+	var m map[string]any
+	if err := json.Unmarshal(b, &m); err != nil {
+		fmt.Fprintln(os.Stderr, err)
+		return 2
+	}
+	fmt.Printf("obligation: %v\nverdict: %v (%v)\n", m["obligation"], m["verdict"], m["backend"])
+	if c, ok := m["clause"]; ok {
+		fmt.Printf("clause: %v\n", c)
+	}
+	prop, _ := m["property"].(string)
+	if rp, _ := m["replayed"].(bool); !rp {
+		fmt.Printf("no failing input was found for this obligation; solver output:\n%v\n", m["solver_output"])
+		return 0
+	}
+	V, err := newVerifier("quick")
+	if err != nil {
+		fmt.Fprintln(os.Stderr, err)
+		return 2
+	}
+	defer V.Close()
+	br := V.runBattery(prop)
+	fmt.Printf("battery: %d cases, %d failing\n", br.Cases, len(br.Failures))
+	for _, f := range br.Failures {
+		fmt.Printf("  %s: %s on %s %s -> got %s want %s %s\n", f.Kind, f.Expr, f.Datum, f.Opts, f.Got, f.Want, f.Detail)
+	}
+	if len(br.Failures) > 0 {
+		return 1
+	}
+	return 0
 }
